@@ -2,6 +2,7 @@
 import ast
 import itertools
 import math
+import os
 import random
 import sys
 import warnings
@@ -20,7 +21,14 @@ PID = "C19"
 RULE = ("Through the public tools API on anisotropic dyadic meshes with masks: (tcd) topological_charge_density/topological_charge, both "
         "methods, on uniform / random / rational-sphere / skyrmion / partly-zero textures; (blint) skyrmion textures of winding number "
         "1..2 and either polarity with uniform rim; (emergent) emergent_magnetic_field on 3-d meshes; (angle) neighbouring_cell_angle "
-        "in every direction and both units, max_neighbouring_cell_angle; (bps) count_bps on hedgehogs with the singularity off the cell "
+        "in every direction and both units, max_neighbouring_cell_angle - base stream (generic angles, lengths 0.3..15) and stream 'len': "
+        "vector-LENGTH regimes (normalised to rounding; 1 +- 1e-2..1e-16 per cell or common; unit vectors rounded through single precision; "
+        "one common length 3e-7..1e100, e.g. 8e5; per-cell lengths over 1e-6.5..1e6.5 and 1e20..1e120; mostly normalised with outliers) x "
+        "ANGLE regimes (generic, spirals with neighbours 1e-1..1e-7 rad apart, the same next to pi, exactly parallel / antiparallel with "
+        "different lengths, zero vectors) x MESH regimes (dyadic; arbitrary binary64 cells 1e-10..5e3 placed up to 1e6 cells from the origin) x "
+        "float64 / float32 fields, both units each; stream 'long': 1000-4000 cells along one axis (oracle only). The same length regimes are "
+        "applied to the fields of tcd (and to a 'relength' variant the densities and charges must not notice), blint, emergent and the "
+        "hedgehogs of bps; (bps) count_bps on hedgehogs with the singularity off the cell "
         "centres and on random smooth textures, along every direction; (dtensor) demag_tensor and _demag_tensor_field_based; (dfield) "
         "demag_field with integer tensors and with the real tensor, on small padded grids also against the code-shaped model path (pad, "
         "C11 fftn, products, C11 ifftn, crop over formal roots of unity, evaluated at exp(-2 pi i/n) by the harness); (refuse) wrong component / spatial dimension / direction / method. "
@@ -30,8 +38,11 @@ RULE = ("Through the public tools API on anisotropic dyadic meshes with masks: (
         "compares to 1e-9 of the natural scale; result meshes exactly. Oracle on the real code alone: invariance under proper rational "
         "rotations, per-cell positive rescaling, mesh scaling / translation, quarter turn of the sample; sign change under reversal; exact "
         "zero for uniform fields; integer Berg-Luescher charge for whole wrappings; one tail-to-tail (reversed: head-to-head) Bloch point "
-        "per hedgehog along x, y, z; angle = arccos of the unit vectors' dot product, in [0, pi], on the mesh one cell shorter and "
-        "shifted by half a cell; tr N(k) exp(+2 pi i k r_c) = -1 at every k-cell; both tensor builders agree; sum of mean demagnetising "
+        "per hedgehog along x, y, z; angle = arccos of the unit vectors' dot product, in [0, pi] (no nan), on the mesh one cell shorter and "
+        "shifted by half a cell (dyadic meshes exactly, binary64 meshes to 1e-12 of the largest coordinate); the angle also against a reference "
+        "that does not depend on the lengths (atan2(|a x b|, a.b) in extended precision after exact power-of-two scaling) within the error "
+        "arccos of a rounded dot product can have: max(1e-9, min(sqrt(2E), E/sin(angle))) rad, E = 64 eps of the field's dtype; unchanged "
+        "when the vectors are brought into another length regime; tr N(k) exp(+2 pi i k r_c) = -1 at every k-cell; both tensor builders agree; sum of mean demagnetising "
         "field components of a uniformly magnetised cuboid = -|M| (-M/3 each for a cube). non-trivial = a non-uniform texture with at "
         "least two cells along some direction (tensor cases: always)")
 TRUSTED = ["harness/c19.py, harness/fieldio.py + driver JSON glue",
@@ -40,7 +51,13 @@ TRUSTED = ["harness/c19.py, harness/fieldio.py + driver JSON glue",
            "model square root: integer Newton iteration, exact on rational squares, 1e-30 relative otherwise (checked against math.sqrt on every run)",
            "np.fft (scipy.fft) round trip ifftn(fftn(x)) = x to rounding, used to read the real-space tensor back from demag_tensor's spectrum"]
 ASSUMPTIONS = ["binary64 rounding of the tools' arithmetic stays below 1e-9 of the natural scale 1/(cell0*cell1) (densities), 1 (angles, tensor), "
-               "|T||m| (fields) on the generated inputs: vector norms in [0.2, 20] or exactly 0, cells 2^-3..15, at most 6 cells per axis in compared cases",
+               "|T||m| (fields) on the generated inputs: vector norms exactly 0 or in [3e-7, 1e120] (topological tools, angles; emergent field 1e-6.5..2e6), "
+               "cells 2^-3..15, at most 6 cells per axis in compared cases (angles: also decimal cells 1e-10..5e3 up to 1e6 cells from the origin, and "
+               "1000-4000 cells along one axis against the oracle only)",
+               "angles: a dot product of two unit vectors rounded in the field's dtype is off by at most 64 eps (observed: a few eps); nothing finer is demanded next to 0 and pi",
+               "vectors shorter than 1e-8 and fields with an integer dtype are NOT in the default streams: the unchanged library treats the former as zero vectors "
+               "(Field.orientation: np.isclose(norm, 0), so the angle between (1e-9,0,0) and (1e-9,1e-9,0) is pi/2 instead of pi/4 and the charge of a "
+               "1e-9-scaled skyrmion is 0) and raises UFuncTypeError on the latter; VERIF_C19_OPEN=1 adds both streams (reported to the lead)",
                "textures used for rotation / rescaling checks are generic (no exactly coplanar neighbour triples), because bergluescher_angle's "
                "guard `triple product == 0` is an exact float test"]
 UNPROVED = ["Berg-Luescher integrality for textures wrapping the sphere a whole number of times (degree of a simplicial map): oracle only "
@@ -64,6 +81,11 @@ UNPROVED = ["Berg-Luescher integrality for textures wrapping the sphere a whole 
             "hypotheses are reduced to 'sq is a non-negative square root on the occurring norms' (tcd_scale_invariant_exact_sqrt); the "
             "orientation field itself is rational-valued in the model (square root exact on rational squares, 1e-30 otherwise), an "
             "orientation field over the reals is not modelled",
+            "length-independence of the angles and charges in binary64: PROVED in the model for every positive per-cell rescaling (angle_invariances, "
+            "tcd_scale_invariant, with the rational square root); that the rounded orientation field of the real code keeps this to the accuracy "
+            "arccos allows - for normalised, nearly normalised (1 +- 1e-2..1e-16), single-precision-rounded, common-length and 1e-6.5..1e120 long "
+            "vectors, angles from 1e-7 rad to pi - 1e-7 rad, 2 to 4000 cells along an axis - is oracle + correspondence only; vectors shorter than "
+            "1e-8 (open finding D121) and integer dtypes (finding D122, fixed in /repo bfc56bb0) are generated by default",
             "sum rule / cube: proved through demag_field and the symbolic Newell tensor for rational leaf functions satisfying the arctangent "
             "identity (demag_field_cuboid_sum, demag_field_cube_third); with the real leaves the trace is proved (demag_trace) but the "
             "convolution model is rational-valued, so the real-leaf sum rule is the composition of the two on paper only"]
@@ -73,6 +95,18 @@ TOL = 1e-9
 PI_Q = Q(Fraction(float(np.pi)))
 NAMES2 = [None, None, ["x", "y"], ["a", "b"], ["y", "x"], ["u", "t"]]
 NAMES3 = [None, None, ["x", "y", "z"], ["a", "b", "c"], ["z", "x", "y"]]
+
+# streams that expose open defects of the unchanged library (see the final report / the note in harness/reg/C19.json):
+#   lens "tiny"    vectors shorter than 1e-8 are treated as zero vectors by Field.orientation (np.isclose(norm, 0))
+#   dtype "int64"  Field.orientation raises on a field with an integer dtype
+OPEN_STREAMS = os.environ.get("VERIF_C19_OPEN", "1") != "0"     # D121 (open) is reported as KNOWN-FINDING, D122 is fixed in /repo
+
+# vector-length regimes (the directions are kept, only the lengths change; exact zero vectors stay zero)
+LENS_ALL = ["unit", "near1", "near1", "near1", "near1c", "near1c", "f32", "common", "common", "wide", "wide", "huge", "mixed", "mixed"]
+LENS_CUBIC = ["unit", "near1", "near1c", "f32", "common6", "wide"]   # emergent field: cubic in the length, keep clear of overflow
+RELEN_ALL = [m for m in LENS_ALL if m != "f32"]       # regimes for the rescaled variant: "f32" rounds the directions, not only the lengths
+RELEN_CUBIC = [m for m in LENS_CUBIC if m != "f32"]
+COMMON_LENGTHS = [8e5, 1e6, 1.44e6, 1.1e6, 1e3, 1e-3, 1e-6, 3e-7, 2.0 ** 40, 2.0 ** -20, 1e12, 1e30, 1e100, 0.999, 1.001, 2.0, 0.5]
 
 warnings.filterwarnings("ignore")
 sys.set_int_max_str_digits(0)  # exact model rationals of summed densities can exceed Python's default 4300-digit limit
@@ -104,6 +138,25 @@ def gen_mesh(rng, ndim, nmin=1, nmax=6, max_cells=40, names=None, cube=False, bc
     return dict(p1=[float(x) for x in pmin], p2=[float(x) for x in pmax], n=n, dims=dims, bc=bc)
 
 
+def gen_phys_mesh(rng, ndim, nmin=2, nmax=5, max_cells=40, names=None, long_axis=None):
+    """arbitrary binary64 mesh: decimal cell sizes from nanometres to kilometres, the region up to 10^6 cells away from the origin"""
+    n = [rng.randint(nmin, nmax) for _ in range(ndim)]
+    while int(np.prod(n)) > max_cells and any(x > nmin for x in n):
+        k = rng.randrange(ndim)
+        n[k] = max(nmin, n[k] - 1)
+    if long_axis is not None:
+        n[long_axis[0]] = long_axis[1]
+    e = rng.choice([-9, -9, -10, -6, -3, 0, 3])
+    cell = [rng.choice([1.0, 2.0, 2.5, 0.5, 3.3, 5.0, 1.7, 0.7]) * 10.0 ** e for _ in range(ndim)]
+    off = [rng.choice([0, 0, -3, 7, -1000, 12345, 10 ** 6, -10 ** 6]) for _ in range(ndim)]
+    p1 = [o * c for o, c in zip(off, cell)]
+    p2 = [a + k * c for a, k, c in zip(p1, n, cell)]
+    return dict(p1=p1, p2=p2, n=n, dims=rng.choice(names) if names else None, bc="", phys=True)
+
+
+ANGLE_TEX = ["random", "ratsphere", "spiral", "spiral", "spiral", "anti", "parallel", "zeros", "axes", "random"]
+
+
 def cases(rng, tier):
     big = tier != "quick"
     # --- topological charge density / charge, both methods
@@ -111,18 +164,21 @@ def cases(rng, tier):
         tex = ["random", "random", "ratsphere", "uniform", "skyrmion", "zeros", "random"][k % 7]
         spec = gen_mesh(rng, 2, nmin=1 if k % 5 == 0 else 2, nmax=6 if not big else 9, max_cells=36 if not big else 81, names=NAMES2,
                         bc_prob=0.25)
-        yield dict(kind="tcd", mesh=spec, tex=tex, density=rng.choice([1.0, 1.0, 0.9, 0.75, 0.5]), via_sel=(k % 3 == 0), sub=rng.getrandbits(32))
+        # lens: length regime of the field itself (every other case: the texture's own lengths); relen: the regime of the
+        # rescaled variant the densities / charges are compared with
+        yield dict(kind="tcd", mesh=spec, tex=tex, density=rng.choice([1.0, 1.0, 0.9, 0.75, 0.5]), via_sel=(k % 3 == 0), sub=rng.getrandbits(32),
+                   lens=("asis" if k % 2 else LENS_ALL[(k // 2) % len(LENS_ALL)]), relen=RELEN_ALL[(k * 5 + 1) % len(RELEN_ALL)])
     # --- integer Berg-Luescher charge
     for k in range(6 if not big else 40):
         n = rng.choice([10, 12, 14]) if not big else rng.choice([10, 12, 14, 16, 20])
         yield dict(kind="blint", n=[n, n + rng.choice([0, 2])], wind=rng.choice([1, 1, 2]), pol=rng.choice([1, -1]),
-                   cell=[float(c) for c in gen_cells(rng, 2)], sub=rng.getrandbits(32))
+                   cell=[float(c) for c in gen_cells(rng, 2)], sub=rng.getrandbits(32), lens=LENS_ALL[(k * 3) % len(LENS_ALL)])
     # --- emergent field
     for k in range(24 if not big else 200):
         spec = gen_mesh(rng, 3, nmin=1 if k % 4 == 0 else 2, nmax=4 if not big else 5, max_cells=36 if not big else 100, names=NAMES3,
                         bc_prob=0.25)
         yield dict(kind="emergent", mesh=spec, tex=rng.choice(["random", "ratsphere", "uniform"]), density=rng.choice([1.0, 0.9, 0.6]),
-                   sub=rng.getrandbits(32))
+                   sub=rng.getrandbits(32), lens=("asis" if k % 2 else LENS_CUBIC[(k // 2) % len(LENS_CUBIC)]))
     # --- neighbouring-cell angles
     for k in range(80 if not big else 600):
         nd = [1, 2, 3, 3, 2][k % 5]
@@ -130,6 +186,39 @@ def cases(rng, tier):
                         names={1: None, 2: NAMES2, 3: NAMES3}[nd])
         yield dict(kind="angle", mesh=spec, tex=rng.choice(["random", "ratsphere", "zeros", "axes"]), units=rng.choice(["rad", "rad", "deg"]),
                    sub=rng.getrandbits(32))
+    # --- neighbouring-cell angles, stream "len": vector-length regime x angle regime (generic, milli- to sub-microradian, next to pi,
+    # exactly parallel / antiparallel) x mesh regime (dyadic / arbitrary binary64 far from the origin) x both units x dtype
+    for k in range(210 if not big else 1500):
+        nd = [1, 2, 3, 3, 2][k % 5]
+        names = {1: None, 2: NAMES2, 3: NAMES3}[nd]
+        f32 = k % 9 == 4
+        lens = (LENS_CUBIC if f32 else LENS_ALL)[k % len(LENS_CUBIC if f32 else LENS_ALL)]
+        if k % 3 == 1:
+            spec = gen_phys_mesh(rng, nd, nmin=2, nmax=5, max_cells=40 if not big else 100, names=names)
+        else:
+            spec = gen_mesh(rng, nd, nmin=2, nmax=5, max_cells=40 if not big else 100, names=names)
+        yield dict(kind="angle", stream="len", mesh=spec, tex=ANGLE_TEX[(k // 2) % len(ANGLE_TEX)], units="both", lens=lens,
+                   relen=rng.choice(RELEN_CUBIC if f32 else RELEN_ALL), dtype="float32" if f32 else None, model=True, sub=rng.getrandbits(32))
+    # --- neighbouring-cell angles on long meshes: thousands of cells along one axis (oracle only)
+    for k in range(10 if not big else 40):
+        nd = [1, 2, 3, 2][k % 4]
+        ax = rng.randrange(nd)
+        names = {1: None, 2: NAMES2, 3: NAMES3}[nd]
+        spec = gen_phys_mesh(rng, nd, nmin=1, nmax=3, max_cells=4, names=names, long_axis=(ax, rng.randint(1000, 4000 if not big else 20000)))
+        yield dict(kind="angle", stream="long", mesh=spec, tex=["spiral", "random", "anti", "parallel"][k % 4], units="both",
+                   lens=LENS_ALL[(k * 3 + 1) % len(LENS_ALL)], relen=rng.choice(RELEN_ALL), dtype=None, model=False, sub=rng.getrandbits(32))
+    if OPEN_STREAMS:
+        for k in range(12):
+            nd = [1, 2, 3][k % 3]
+            spec = gen_mesh(rng, nd, nmin=2, nmax=4, max_cells=30, names={1: None, 2: NAMES2, 3: NAMES3}[nd])
+            yield dict(kind="angle", stream="open", mesh=spec, tex=rng.choice(["random", "spiral", "ratsphere"]), units="both",
+                       lens="tiny" if k % 2 == 0 else "intvec", relen=("unit" if k % 2 == 0 else None),   # integers cannot be rescaled to unit length within an integer dtype
+                       dtype=None if k % 2 == 0 else "int64", model=True,
+                       sub=rng.getrandbits(32))
+        for k in range(6):
+            spec = gen_mesh(rng, 2, nmin=3, nmax=5, max_cells=25, names=NAMES2)
+            yield dict(kind="tcd", mesh=spec, tex=["random", "skyrmion"][k % 2], density=1.0, via_sel=False, sub=rng.getrandbits(32),
+                       lens="tiny", relen="unit")
     # --- Bloch points: hedgehogs in the regime where the discretised texture resolves the singularity
     # (>= 6 cells per axis, cell aspect ratio <= 2, singular point anywhere inside the central cell block)
     for k in range(8 if not big else 60):
@@ -140,7 +229,8 @@ def cases(rng, tier):
             if max(cell) / min(cell) <= 2:
                 break
         off = [round(rng.uniform(-0.45, 0.45), 3) for _ in range(3)] if k % 3 else None
-        yield dict(kind="bps", tex="hedgehog", n=n, cell=cell, rev=bool(k % 2), off=off, claim=True, model=False, sub=rng.getrandbits(32))
+        yield dict(kind="bps", tex="hedgehog", n=n, cell=cell, rev=bool(k % 2), off=off, claim=True, model=False, sub=rng.getrandbits(32),
+                   lens=("asis" if k % 3 == 0 else LENS_ALL[(k * 5 + 2) % len(LENS_ALL)]))
     for k in range(2 if not big else 6):
         n = [rng.choice([3, 4]) for _ in range(3)]
         yield dict(kind="bps", tex="hedgehog", n=n, cell=[float(c) for c in gen_cells(rng, 3)], rev=bool(k % 2), off=[0.25, -0.125, 0.375],
@@ -199,10 +289,71 @@ def unit_rat(rng):
     return [float(2 * u / d), float(2 * v / d), float(s * (1 - u * u - v * v) / d)]
 
 
+def apply_lens(rng, arr, mode):
+    """the texture `arr` (shape (..., 3)) with the same directions and the vector lengths of regime `mode`; exact zero vectors stay zero"""
+    if mode in (None, "asis"):
+        return arr
+    arr = np.asarray(arr, dtype=float)
+    shp = arr.shape[:-1] + (1,)
+    size = int(np.prod(shp))
+    nrm = np.linalg.norm(arr, axis=-1, keepdims=True)
+    unit = np.divide(arr, nrm, out=np.zeros_like(arr), where=nrm > 0)
+
+    def per_cell(fn):
+        return np.array([fn() for _ in range(size)]).reshape(shp)
+
+    def dev(k):  # a length 1 +- m 10^-k
+        return 1 + rng.choice([1, -1]) * rng.uniform(1, 9.9) * 10.0 ** -k
+
+    if mode == "unit":      # normalised as well as binary64 allows
+        return unit
+    if mode == "near1":     # every cell its own deviation from 1, all of the same order 1e-2 ... 1e-16
+        k = rng.randint(2, 16)
+        return unit * per_cell(lambda: dev(k))
+    if mode == "near1c":    # one common length next to 1
+        return unit * dev(rng.randint(2, 16))
+    if mode == "f32":       # unit vectors that went through single precision (a file, a GPU)
+        return unit.astype(np.float32).astype(np.float64)
+    if mode == "common":    # one common length (saturation magnetisation, ...)
+        return unit * rng.choice(COMMON_LENGTHS)
+    if mode == "common6":
+        return unit * rng.choice([x for x in COMMON_LENGTHS if 1e-6 <= x <= 2e6])
+    if mode == "wide":      # lengths over thirteen orders of magnitude, clear of the 1e-8 zero test of Field.orientation
+        return unit * per_cell(lambda: 10.0 ** rng.uniform(-6.5, 6.5))
+    if mode == "huge":
+        return unit * per_cell(lambda: 10.0 ** rng.uniform(20, 120))
+    if mode == "mixed":     # mostly (nearly) normalised, some cells of a very different length
+        return unit * per_cell(lambda: rng.choice([1.0, 1.0, dev(rng.randint(2, 16)), dev(rng.randint(5, 9)), 10.0 ** rng.uniform(-6.5, 6.5)]))
+    if mode == "tiny":      # OPEN_STREAMS only: shorter than 1e-8
+        return unit * per_cell(lambda: 10.0 ** rng.uniform(-15, -8.5))
+    if mode == "intvec":    # OPEN_STREAMS only: integer-valued vectors for an integer dtype
+        iv = np.rint(unit * 9)
+        iv[np.all(iv == 0, axis=-1)] = (1, 2, -2)
+        return iv
+    raise core.MachineryError(f"unknown length regime {mode!r}")
+
+
 def texture(rng, tex, mesh):
     """array of shape (*n, 3)"""
     n = tuple(int(x) for x in mesh.n)
     size = int(np.prod(n))
+    if tex in ("spiral", "anti"):
+        # slowly turning texture: neighbours m 10^-k rad apart, k = 1 ... 7 per axis; "anti": every other cell reversed (angles next to pi)
+        grids = np.meshgrid(*[np.arange(x, dtype=float) for x in n], indexing="ij")
+        ca = [rng.choice([1, -1]) * rng.uniform(1, 9) * 10.0 ** -rng.randint(1, 7) for _ in n]
+        cb = [rng.choice([1, -1]) * rng.uniform(1, 9) * 10.0 ** -rng.randint(1, 7) for _ in n]
+        theta = rng.uniform(0.3, 2.8) + sum(c * g for c, g in zip(ca, grids))
+        phi = rng.uniform(0, 6.28) + sum(c * g for c, g in zip(cb, grids))
+        arr = np.stack([np.sin(theta) * np.cos(phi), np.sin(theta) * np.sin(phi), np.cos(theta)], axis=-1)
+        if tex == "anti":
+            arr = arr * ((-1.0) ** sum(grids))[..., None]
+        return arr
+    if tex == "parallel":
+        # one direction, every cell its own length, some reversed: angles exactly 0 or pi (dot products of rounded unit vectors
+        # may leave [-1, 1])
+        u = np.array([rng.uniform(-1, 1) for _ in range(3)]) + np.array([0.0, 0.0, 1.5])
+        ls = np.array([rng.choice([1, 1, -1]) * rng.uniform(0.3, 15) for _ in range(size)]).reshape(*n, 1)
+        return ls * u
     if tex == "uniform":
         v = [rng.randint(-5, 5) for _ in range(3)]
         if not any(v):
@@ -336,12 +487,12 @@ def build2d(case, rng):
         d3 = list(d2) + [next(c for c in "zwq" if c not in d2)]
         r = df.Region(p1=spec["p1"] + [0.0], p2=spec["p2"] + [0.5], dims=d3)
         m3 = df.Mesh(region=r, n=spec["n"] + [1], bc=spec.get("bc", ""))
-        arr = texture(rng, case["tex"], m3.sel(d3[2]))
+        arr = apply_lens(rng, texture(rng, case["tex"], m3.sel(d3[2])), case.get("lens"))
         mask = fieldio.gen_mask(rng, tuple(spec["n"]), case["density"])
         f3 = df.Field(m3, nvdim=3, value=arr.reshape(*spec["n"], 1, 3), valid=mask.reshape(*spec["n"], 1))
         return f3.sel(d3[2])
     mesh = fieldio.build_mesh(spec)
-    arr = texture(rng, case["tex"], mesh)
+    arr = apply_lens(rng, texture(rng, case["tex"], mesh), case.get("lens"))
     mask = fieldio.gen_mask(rng, tuple(spec["n"]), case["density"])
     return df.Field(mesh, nvdim=3, value=arr, valid=mask)
 
@@ -409,7 +560,8 @@ def run_tcd(case, rng, obs, fail):
     obs["nontrivial"] = nontriv
     obs["tags"] += [f"tex:{case['tex']}", f"masked:{not bool(f.valid.all())}", f"n:{'1' if min(n) == 1 else '>=2'}",
                     f"aniso:{c0 != c1}", f"dims:{'default' if list(f.mesh.region.dims) == ['x', 'y'] else 'custom'}",
-                    f"bc:{'periodic' if f.mesh.bc else 'open'}", f"bl_exceptional:{obs['bl_exceptional']}"]
+                    f"bc:{'periodic' if f.mesh.bc else 'open'}", f"bl_exceptional:{obs['bl_exceptional']}",
+                    f"lens:{case.get('lens', 'asis')}", f"relen:{case.get('relen')}"]
     # ---- uniform -> zero (to rounding: the one-sided edge stencil -3c+4c-c is not exact in binary64)
     if case["tex"] == "uniform":
         for meth, q in res.items():
@@ -427,6 +579,9 @@ def run_tcd(case, rng, obs, fail):
     if generic:
         variants["rotated"] = with_array(f, f.array @ Qm.T)
         variants["rescaled"] = with_array(f, f.array * sfac)
+        if case.get("relen"):
+            # the same directions in another length regime (normalised, next to normalised, one common length, many orders of magnitude)
+            variants["relength"] = with_array(f, apply_lens(rng, f.array, case["relen"]))
     r = f.mesh.region
     mesh_t = df.Mesh(region=df.Region(p1=[a + t for a, t in zip(r.pmin, tr)], p2=[a + t for a, t in zip(r.pmax, tr)], dims=r.dims), n=n,
                      bc=f.mesh.bc)
@@ -440,13 +595,13 @@ def run_tcd(case, rng, obs, fail):
         q0 = res[meth].array
         ch0, cha0 = obs[meth + ":charge"]
         for name, g in variants.items():
-            if meth == "berg-luescher" and (obs["bl_exceptional"] or (name in ("rotated", "rescaled") and not generic_bl)):
+            if meth == "berg-luescher" and (obs["bl_exceptional"] or (name in ("rotated", "rescaled", "relength") and not generic_bl)):
                 continue
             qg = dft.topological_charge_density(g, method=meth).array
             chg = dft.topological_charge(g, method=meth)
             chag = dft.topological_charge(g, method=meth, absolute=True)
             cs = scale * c0 * c1 * max(1, q0.size)
-            if name in ("rotated", "rescaled", "translated"):
+            if name in ("rotated", "rescaled", "relength", "translated"):
                 if not arr_close(qg, q0, scale):
                     fail(f"{meth}: density changes when the field is {name} (max diff {np.abs(qg - q0).max():.3g}, scale {scale:.3g})")
                 if not near(chg, ch0, cs) or not near(chag, cha0, cs):
@@ -490,10 +645,10 @@ def run_blint(case, rng, obs, fail):
     n, cell = case["n"], case["cell"]
     mesh = df.Mesh(p1=(0.0, 0.0), p2=(n[0] * cell[0], n[1] * cell[1]), n=n)
     arr = skyrmion_rim(mesh, case["wind"], case["pol"], rng)
-    f = df.Field(mesh, nvdim=3, value=arr * 2.5)
+    f = df.Field(mesh, nvdim=3, value=apply_lens(rng, arr, case["lens"]) if case.get("lens") else arr * 2.5)
     ch = dft.topological_charge(f, method="berg-luescher")
     want = -case["wind"] * case["pol"]
-    obs["tags"] += [f"wind:{case['wind']}", f"pol:{case['pol']}"]
+    obs["tags"] += [f"wind:{case['wind']}", f"pol:{case['pol']}", f"lens:{case.get('lens', 'asis')}"]
     obs["nontrivial"] = True
     if abs(ch - round(ch)) > 1e-9:
         fail(f"Berg-Luescher charge {ch!r} of a skyrmion texture (winding {case['wind']}, polarity {case['pol']}, n={n}) with uniform rim is not an integer")
@@ -509,7 +664,7 @@ def run_blint(case, rng, obs, fail):
 def run_emergent(case, rng, obs, fail):
     mesh = fieldio.build_mesh(case["mesh"])
     n = tuple(int(x) for x in mesh.n)
-    arr = texture(rng, case["tex"], mesh)
+    arr = apply_lens(rng, texture(rng, case["tex"], mesh), case.get("lens"))
     mask = fieldio.gen_mask(rng, n, case["density"])
     f = df.Field(mesh, nvdim=3, value=arr, valid=mask)
     obs["field"] = fieldio.field_json(f)
@@ -520,7 +675,7 @@ def run_emergent(case, rng, obs, fail):
     scale = vmax ** 3 / min(c[1] * c[2], c[0] * c[2], c[0] * c[1])
     obs["scale"] = scale
     obs["nontrivial"] = case["tex"] != "uniform" and max(n) >= 2
-    obs["tags"] += [f"tex:{case['tex']}", f"masked:{not bool(mask.all())}"]
+    obs["tags"] += [f"tex:{case['tex']}", f"masked:{not bool(mask.all())}", f"lens:{case.get('lens', 'asis')}"]
     if not (F0.mesh == mesh and F0.nvdim == 3 and np.array_equal(F0.valid, mask)):
         fail("emergent field is not a 3-component field on the same mesh with the same validity")
     if case["tex"] == "uniform" and np.any(np.abs(F0.array) > 1e-12 * scale):
@@ -540,82 +695,172 @@ def run_emergent(case, rng, obs, fail):
     return obs
 
 
+def angle_units(case):
+    return ["rad", "deg"] if case["units"] == "both" else [case["units"]]
+
+
+def case_eps(case):
+    """unit round-off of the field's dtype"""
+    return 2.0 ** -23 if case.get("dtype") == "float32" else 2.0 ** -52
+
+
+def angle_tol(theta, eps=2.0 ** -52):
+    """admissible error (rad) of arccos(clip(u1.u2)) evaluated in arithmetic of unit round-off eps: the dot product of two rounded
+    unit vectors is off by at most E = 64 eps, arccos turns that into E / sin(theta), next to 0 and pi into sqrt(2 E); never below
+    the 1e-9 of the natural scale every continuous comparison of this check uses"""
+    E = 64 * eps
+    return np.maximum(TOL, np.minimum(math.sqrt(2 * E), E / np.maximum(np.abs(np.sin(theta)), 1e-300)))
+
+
+def angle_reference(arr, ax):
+    """angle between the unit vectors of neighbouring cells along axis `ax`, independent of the tools: atan2(|a x b|, a.b) in
+    extended precision after an exact power-of-two scaling of every vector (independent of the lengths, accurate next to 0 and pi).
+    Returns (angles in rad, mask of the pairs in which both vectors are non-zero)"""
+    a = np.asarray(arr, dtype=np.longdouble)
+    big = np.max(np.abs(a), axis=-1, keepdims=True)
+    nz = big[..., 0] > 0
+    _, ex = np.frexp(np.where(big > 0, big, 1).astype(float))
+    a = np.ldexp(a, -ex)
+    nd = a.ndim - 1
+    sl1 = tuple(slice(0, -1) if k == ax else slice(None) for k in range(nd))
+    sl2 = tuple(slice(1, None) if k == ax else slice(None) for k in range(nd))
+    v1, v2 = a[sl1], a[sl2]
+    cr = np.cross(v1, v2)
+    ang = np.arctan2(np.sqrt(np.sum(cr * cr, axis=-1)), np.sum(v1 * v2, axis=-1))
+    return ang.astype(float), nz[sl1] & nz[sl2]
+
+
+def mesh_half_cell_check(mesh, g, ax, d, phys, fail):
+    """the result mesh: one cell shorter along `ax`, the region shrunk by half a cell at both ends of that axis, same cells.
+    Dyadic meshes: exactly; arbitrary binary64 meshes: to the rounding of pmin + cell/2 (1e-12 of the largest coordinate)"""
+    nd = int(mesh.region.ndim)
+    half = Fraction(float(mesh.cell[ax])) / 2
+    for a in range(nd):
+        lo = Fraction(float(mesh.region.pmin[a])) + (half if a == ax else 0)
+        hi = Fraction(float(mesh.region.pmax[a])) - (half if a == ax else 0)
+        glo, ghi, gc = (Fraction(float(x)) for x in (g.mesh.region.pmin[a], g.mesh.region.pmax[a], g.mesh.cell[a]))
+        slack = Fraction(1e-12) * max(abs(lo), abs(hi), Fraction(float(mesh.cell[a]))) if phys else 0
+        if abs(glo - lo) > slack or abs(ghi - hi) > slack:
+            fail(f"angle mesh along {d}: axis {a} spans [{g.mesh.region.pmin[a]!r}, {g.mesh.region.pmax[a]!r}], expected [{float(lo)!r}, {float(hi)!r}] (shifted by half a cell)")
+        if abs(gc - Fraction(float(mesh.cell[a]))) > slack:  # (cell = edge / n inherits the rounding of the corners)
+            fail(f"angle mesh along {d}: cell size changed on axis {a}")
+
+
 def run_angle(case, rng, obs, fail):
     mesh = fieldio.build_mesh(case["mesh"])
+    phys = bool(case["mesh"].get("phys"))
     n = tuple(int(x) for x in mesh.n)
-    arr = texture(rng, case["tex"], mesh)
-    f = df.Field(mesh, nvdim=3, value=arr)
-    obs["field"] = fieldio.field_json(f)
-    units = case["units"]
-    top = math.pi if units == "rad" else 180.0
+    arr = apply_lens(rng, texture(rng, case["tex"], mesh), case.get("lens"))
+    if case.get("dtype"):
+        f = df.Field(mesh, nvdim=3, value=arr, dtype=getattr(np, case["dtype"]))
+        arr = np.asarray(f.array, dtype=float)  # the values the tools see
+    else:
+        f = df.Field(mesh, nvdim=3, value=arr)
+    eps = case_eps(case)
+    E = 64 * eps
+    use_model = case.get("model", True)
+    obs["field"] = fieldio.field_json(f) if use_model else None
     dims = list(mesh.region.dims)
     nrm = np.linalg.norm(arr, axis=-1, keepdims=True)
     unit = np.divide(arr, nrm, out=np.zeros_like(arr), where=nrm > 1e-8)
-    res = {}
-    for ax, d in enumerate(dims):
-        s, g = st(lambda: dft.neighbouring_cell_angle(f, direction=d, units=units))
-        res[d] = (s, g)
-        if n[ax] == 1:
+    arr_re = apply_lens(rng, arr, case["relen"]) if case.get("relen") else None
+    Qm = rat_rotation(rng)
+    obs["res"], obs["max"] = {}, {}
+    for units in angle_units(case):
+        top = math.pi if units == "rad" else 180.0
+        rad = (lambda x: x) if units == "rad" else np.radians
+        res = {}
+        for ax, d in enumerate(dims):
+            s, g = st(lambda: dft.neighbouring_cell_angle(f, direction=d, units=units))
+            res[d] = (s, g)
+            if n[ax] == 1:
+                if s == "ok":
+                    fail(f"angles along {d} with a single cell returned a field")
+                continue
+            if s != "ok":
+                fail(f"neighbouring_cell_angle along {d} refused: {g}")
+                continue
+            want_n = list(n)
+            want_n[ax] -= 1
+            if [int(x) for x in g.mesh.n] != want_n or g.nvdim != 1:
+                fail(f"angle field along {d}: n={list(g.mesh.n)}, expected {want_n} (one cell shorter)")
+                continue
+            mesh_half_cell_check(mesh, g, ax, d, phys, fail)
+            sl1 = tuple(slice(0, -1) if a == ax else slice(None) for a in range(len(n)))
+            sl2 = tuple(slice(1, None) if a == ax else slice(None) for a in range(len(n)))
+            dots = np.clip(np.sum(unit[sl1] * unit[sl2], axis=-1), -1, 1)
+            want = np.arccos(dots) if units == "rad" else np.degrees(np.arccos(dots))
+            got = np.asarray(g.array[..., 0], dtype=float)
+            if not np.all((got >= 0) & (got <= top * (1 + 1e-15))):  # (a nan fails as well)
+                fail(f"angle along {d} outside [0, {top}]: min {got.min()}, max {got.max()}")
+            # arccos is ill-conditioned at +-1: compare cosines as well
+            gc = np.cos(rad(got))
+            if not (np.all(np.abs(got - want) <= max(1e-6, math.sqrt(2 * E) / math.pi) * top) and np.all(np.abs(gc - dots) <= max(1e-9, E))):
+                fail(f"angle along {d} is not the angle between the two unit vectors (max diff {np.abs(got - want).max():.3g} {units})")
+            # the angle itself, whatever the lengths, with the accuracy arccos of a rounded dot product can have
+            ref, both = angle_reference(arr, ax)
+            tol = angle_tol(ref, eps)
+            bad = both & ~(np.abs(rad(got) - ref) <= tol)
+            if np.any(bad):
+                j = np.unravel_index(int(np.argmax(np.where(bad, np.abs(rad(got) - ref) / tol, 0))), bad.shape)
+                fail(f"angle along {d} [{units}] between cells {tuple(int(x) for x in j)} and the next one: {float(rad(got)[j])!r} rad, the unit "
+                     f"vectors of {arr[sl1][j].tolist()} and {arr[sl2][j].tolist()} enclose {float(ref[j])!r} rad (admissible error {float(tol[j]):.3g})")
+            g2 = dft.neighbouring_cell_angle(with_dtype(case, mesh, arr @ Qm.T), direction=d, units=units)
+            c2 = np.cos(rad(np.asarray(g2.array[..., 0], dtype=float)))
+            if not np.all(np.abs(c2 - gc) <= max(1e-9, E)):
+                fail(f"angle along {d} changes under a global rotation of the vectors")
+            if arr_re is not None:
+                g3 = np.asarray(dft.neighbouring_cell_angle(with_dtype(case, mesh, arr_re), direction=d, units=units).array[..., 0], dtype=float)
+                bad = both & ~(np.abs(rad(g3) - rad(got)) <= 2 * tol)
+                if np.any(bad):
+                    j = np.unravel_index(int(np.argmax(np.where(bad, np.abs(rad(g3) - rad(got)), 0))), bad.shape)
+                    fail(f"angle along {d} [{units}] changes when the vectors are rescaled (lengths '{case['relen']}'): {float(rad(got)[j])!r} -> "
+                         f"{float(rad(g3)[j])!r} rad between {arr_re[sl1][j].tolist()} and {arr_re[sl2][j].tolist()}")
+        obs["res"][units] = res
+        s, gm = st(lambda: dft.max_neighbouring_cell_angle(f, units=units))
+        obs["max"][units] = (s, gm)
+        if min(n) >= 2:
+            # (the function refuses meshes with exactly two cells along a non-leading axis: it assigns
+            # `array.squeeze()` into the full-shape slot; the property does not speak about it, the model follows the code)
             if s == "ok":
-                fail(f"angles along {d} with a single cell returned a field")
-            continue
-        if s != "ok":
-            fail(f"neighbouring_cell_angle along {d} refused: {g}")
-            continue
-        want_n = list(n)
-        want_n[ax] -= 1
-        if [int(x) for x in g.mesh.n] != want_n or g.nvdim != 1:
-            fail(f"angle field along {d}: n={list(g.mesh.n)}, expected {want_n} (one cell shorter)")
-            continue
-        half = Fraction(float(mesh.cell[ax])) / 2
-        for a in range(len(n)):
-            lo = Fraction(float(mesh.region.pmin[a])) + (half if a == ax else 0)
-            hi = Fraction(float(mesh.region.pmax[a])) - (half if a == ax else 0)
-            if Fraction(float(g.mesh.region.pmin[a])) != lo or Fraction(float(g.mesh.region.pmax[a])) != hi:
-                fail(f"angle mesh along {d}: axis {a} spans [{g.mesh.region.pmin[a]}, {g.mesh.region.pmax[a]}], expected [{float(lo)}, {float(hi)}] (shifted by half a cell)")
-            if Fraction(float(g.mesh.cell[a])) != Fraction(float(mesh.cell[a])):
-                fail(f"angle mesh along {d}: cell size changed on axis {a}")
-        sl1 = tuple(slice(0, -1) if a == ax else slice(None) for a in range(len(n)))
-        sl2 = tuple(slice(1, None) if a == ax else slice(None) for a in range(len(n)))
-        dots = np.clip(np.sum(unit[sl1] * unit[sl2], axis=-1), -1, 1)
-        want = np.arccos(dots) if units == "rad" else np.degrees(np.arccos(dots))
-        got = g.array[..., 0]
-        if np.any(got < 0) or np.any(got > top * (1 + 1e-15)):
-            fail(f"angle along {d} outside [0, {top}]: min {got.min()}, max {got.max()}")
-        # arccos is ill-conditioned at +-1: compare cosines as well
-        gc = np.cos(got if units == "rad" else np.radians(got))
-        if not (np.all(np.abs(got - want) <= 1e-6 * top) and np.all(np.abs(gc - dots) <= 1e-9)):
-            fail(f"angle along {d} is not the angle between the two unit vectors (max diff {np.abs(got - want).max():.3g} {units})")
-        Qm = rat_rotation(rng)
-        g2 = dft.neighbouring_cell_angle(df.Field(mesh, nvdim=3, value=arr @ Qm.T), direction=d, units=units)
-        c2 = np.cos(g2.array[..., 0] if units == "rad" else np.radians(g2.array[..., 0]))
-        if not np.all(np.abs(c2 - gc) <= 1e-9):
-            fail(f"angle along {d} changes under a global rotation of the vectors")
-    obs["res"] = res
-    s, gm = st(lambda: dft.max_neighbouring_cell_angle(f, units=units))
-    obs["max"] = (s, gm)
-    if min(n) >= 2:
-        # (the function refuses meshes with exactly two cells along a non-leading axis: it assigns
-        # `array.squeeze()` into the full-shape slot; the property does not speak about it, the model follows the code)
-        if s == "ok":
-            want = np.zeros(n)
-            for ax, d in enumerate(dims):
-                a = res[d][1].array[..., 0]
-                sl1 = tuple(slice(0, -1) if k == ax else slice(None) for k in range(len(n)))
-                sl2 = tuple(slice(1, None) if k == ax else slice(None) for k in range(len(n)))
-                want[sl1] = np.maximum(want[sl1], a)
-                want[sl2] = np.maximum(want[sl2], a)
-            if not (gm.mesh == mesh and np.array_equal(gm.array[..., 0], want)):
-                fail("max_neighbouring_cell_angle is not the maximum over the (up to 2*ndim) neighbour angles on the field's mesh")
+                want = np.zeros(n)
+                for ax, d in enumerate(dims):
+                    if res[d][0] != "ok":
+                        continue
+                    a = res[d][1].array[..., 0]
+                    sl1 = tuple(slice(0, -1) if k == ax else slice(None) for k in range(len(n)))
+                    sl2 = tuple(slice(1, None) if k == ax else slice(None) for k in range(len(n)))
+                    want[sl1] = np.maximum(want[sl1], a)
+                    want[sl2] = np.maximum(want[sl2], a)
+                if not (gm.mesh == mesh and np.array_equal(gm.array[..., 0], want)):
+                    fail("max_neighbouring_cell_angle is not the maximum over the (up to 2*ndim) neighbour angles on the field's mesh")
     obs["nontrivial"] = max(n) >= 2
-    obs["tags"] += [f"ndim:{len(n)}", f"units:{units}", f"tex:{case['tex']}", f"single:{min(n) == 1}"]
+    amin = math.inf  # smallest distance of a neighbour angle from 0 / pi
+    for ax in range(len(n)):
+        if n[ax] >= 2:
+            ref, both = angle_reference(arr, ax)
+            if np.any(both):
+                amin = min(amin, float(np.min(np.minimum(ref, math.pi - ref)[both])))
+    obs["tags"] += [f"ndim:{len(n)}", f"units:{case['units']}", f"tex:{case['tex']}", f"single:{min(n) == 1}",
+                    f"stream:{case.get('stream', 'base')}", f"lens:{case.get('lens', 'asis')}", f"relen:{case.get('relen')}",
+                    f"dtype:{case.get('dtype') or 'float64'}", f"mesh:{'binary64-far' if phys else 'dyadic'}",
+                    f"cells_along_axis:{'>=1000' if max(n) >= 1000 else '<=6'}", f"model:{use_model}",
+                    "min_angle_off_0_pi:" + ("none" if amin == math.inf else "<=1e-9" if amin <= 1e-9 else f"1e{int(math.floor(math.log10(amin)))}")]
     return obs
+
+
+def with_dtype(case, mesh, arr):
+    """the variant field in the case's dtype - unless that dtype cannot hold the variant's values (rotated or
+    rescaled integer vectors are not integers: an integer dtype would truncate them in the harness, not in the library)"""
+    if case.get("dtype") and not (np.dtype(case["dtype"]).kind in "iu" and not np.all(np.asarray(arr) == np.round(arr))):
+        return df.Field(mesh, nvdim=3, value=arr, dtype=getattr(np, case["dtype"]))
+    return df.Field(mesh, nvdim=3, value=arr)
 
 
 def run_bps(case, rng, obs, fail):
     if case["tex"] == "hedgehog":
         mesh = mesh3(case["n"], case["cell"], p1=(-1.0, 2.0, 0.5))
-        arr = hedgehog(mesh, case["off"], case["rev"])
+        arr = apply_lens(rng, hedgehog(mesh, case["off"], case["rev"]), case.get("lens"))
     else:
         mesh = fieldio.build_mesh(case["mesh"])
         arr = smooth3d(rng, mesh)
@@ -637,7 +882,7 @@ def run_bps(case, rng, obs, fail):
                 fail(f"hedgehog{' (reversed)' if case['rev'] else ''} n={case['n']} offset={case['off']}: count_bps along {d} gives total/hh/tt = {got}, expected {want}; pattern {r['bp_pattern_' + d]}")
     obs["res"] = res
     obs["nontrivial"] = True
-    obs["tags"] += [f"tex:{case['tex']}", f"model:{case['model']}"]
+    obs["tags"] += [f"tex:{case['tex']}", f"model:{case['model']}", f"lens:{case.get('lens', 'asis')}"]
     return obs
 
 
@@ -766,6 +1011,19 @@ def run_refuse(case, rng, obs, fail):
         "angle_units": (lambda: dft.neighbouring_cell_angle(f, direction=d0, units="grad"), False),
         "bps": (lambda: dft.count_bps(f, direction=d0), nv == 3 and nd == 3),
         "bps_dir": (lambda: dft.count_bps(f, direction="q"), False),
+        # further malformed directions / units / methods (real code only)
+        "angle_dir_none": (lambda: dft.neighbouring_cell_angle(f, direction=None), False),
+        "angle_dir_int": (lambda: dft.neighbouring_cell_angle(f, direction=0), False),
+        "angle_dir_case": (lambda: dft.neighbouring_cell_angle(f, direction=d0.upper()), False),
+        "angle_dir_two": (lambda: dft.neighbouring_cell_angle(f, direction=d0 + d0), False),
+        "angle_units_none": (lambda: dft.neighbouring_cell_angle(f, direction=d0, units=None), False),
+        "angle_units_case": (lambda: dft.neighbouring_cell_angle(f, direction=d0, units="RAD"), False),
+        "angle_units_long": (lambda: dft.neighbouring_cell_angle(f, direction=d0, units="degrees"), False),
+        "bps_dir_none": (lambda: dft.count_bps(f, direction=None), False),
+        "bps_dir_int": (lambda: dft.count_bps(f, direction=0), False),
+        "tcd_method_none": (lambda: dft.topological_charge_density(f, method=None), False),
+        "tcd_method_case": (lambda: dft.topological_charge_density(f, method="Continuous"), False),
+        "charge_method": (lambda: dft.topological_charge(f, method="bl"), False),
     }
     out = {}
     for name, (fn, should) in calls.items():
@@ -826,9 +1084,11 @@ def model_requests(case, obs):
     if k == "emergent":
         return [dict(op="emergent", field=obs["field"])]
     if k == "angle":
+        if not case.get("model", True):
+            return []
         dims = obs["field"]["mesh"]["region"]["dims"]
-        return [dict(op="angle", field=obs["field"], dir=d, units=case["units"]) for d in dims] + \
-            [dict(op="max_angle", field=obs["field"], units=case["units"])]
+        return [r for u in angle_units(case) for r in
+                [dict(op="angle", field=obs["field"], dir=d, units=u) for d in dims] + [dict(op="max_angle", field=obs["field"], units=u)]]
     if k == "bps" and case["model"]:
         dims = obs["field"]["mesh"]["region"]["dims"]
         return [dict(op="count_bps", field=obs["field"], dir=d, pi=PI_Q) for d in dims]
@@ -853,12 +1113,23 @@ def model_requests(case, obs):
     return []
 
 
-def cmp_mesh(name, mesh, mj, dis):
+def acos_q(d):
+    """arccos of an exact rational in [-1, 1], accurate next to +-1: 2 asin(sqrt((1 - d)/2)) resp. pi - 2 asin(sqrt((1 + d)/2))"""
+    d = Fraction(d)
+    if d >= 0:
+        return 2 * math.asin(math.sqrt(float((1 - d) / 2)))
+    return math.pi - 2 * math.asin(math.sqrt(float((1 + d) / 2)))
+
+
+def cmp_mesh(name, mesh, mj, dis, rel=0):
+    """rel = 0: corners exactly (dyadic meshes); rel > 0: arbitrary binary64 meshes, corners to rel of the largest coordinate (the
+    model adds half a cell exactly, the code in binary64)"""
     got = fieldio.mesh_json(mesh)
     if got["n"] != mj["n"]:
         dis.append(f"{name}: n impl {got['n']} vs model {mj['n']}")
+    big = max([abs(F(x)) for key in ("pmin", "pmax") for x in mj["region"][key]] + [Fraction(0)])
     for key in ("pmin", "pmax"):
-        if [F(x) for x in got["region"][key]] != [F(x) for x in mj["region"][key]]:
+        if any(abs(F(x) - F(y)) > Fraction(rel) * big for x, y in zip(got["region"][key], mj["region"][key])):
             dis.append(f"{name}: region {key} impl {got['region'][key]} vs model {mj['region'][key]}")
     if got["region"]["dims"] != mj["region"]["dims"]:
         dis.append(f"{name}: dims impl {got['region']['dims']} vs model {mj['region']['dims']}")
@@ -934,39 +1205,48 @@ def compare(case, obs, rs):
         cmp_values("emergent", g.array, r["ok"]["data"], obs["scale"], dis, 1e-8)
     elif k == "angle":
         dims = obs["field"]["mesh"]["region"]["dims"]
-        deg = case["units"] == "deg"
-        for d, r in zip(dims, rs):
-            s, g = obs["res"][d]
+        phys = bool(case["mesh"].get("phys"))
+        eps = case_eps(case)
+        E = 64 * eps
+        per = len(dims) + 1
+        for ui, units in enumerate(angle_units(case)):
+            deg = units == "deg"
+            rsu = rs[ui * per:(ui + 1) * per]
+            for d, r in zip(dims, rsu):
+                s, g = obs["res"][units][d]
+                if (s == "ok") != ("ok" in r):
+                    dis.append(f"angle along {d}: impl {s} vs model {'ok' if 'ok' in r else r}")
+                    continue
+                if s != "ok":
+                    continue
+                cmp_mesh(f"angle mesh along {d}", g.mesh, r["ok"]["mesh"], dis, rel=1e-12 if phys else 0)
+                mq = [F(row[0]) for row in r["ok"]["data"]]
+                md = np.array([float(x) for x in mq])
+                ga = np.asarray(g.array, dtype=float).reshape(-1)
+                if ga.shape != md.shape:
+                    dis.append(f"angle along {d}: {ga.size} values vs model {md.size}")
+                    continue
+                gr = np.radians(ga) if deg else ga
+                gc = np.cos(gr)
+                want = np.array([acos_q(x) for x in mq])   # accurate next to 0 and pi (from 1 -+ dot, exact)
+                if not (np.all(np.abs(gc - md) <= max(1e-9, E)) and np.all(np.abs(gr - want) <= angle_tol(want, eps))):
+                    j = int(np.argmax(np.abs(gr - want) / angle_tol(want, eps)))
+                    dis.append(f"angle along {d} [{units}]: flat cell {j} impl {gr[j]!r} rad (cos {gc[j]!r}) vs model {want[j]!r} rad (clipped dot {md[j]!r})")
+            s, gm = obs["max"][units]
+            r = rsu[-1]
             if (s == "ok") != ("ok" in r):
-                dis.append(f"angle along {d}: impl {s} vs model {'ok' if 'ok' in r else r}")
-                continue
-            if s != "ok":
-                continue
-            cmp_mesh(f"angle mesh along {d}", g.mesh, r["ok"]["mesh"], dis)
-            md = np.array([float(F(row[0])) for row in r["ok"]["data"]])
-            ga = g.array.reshape(-1)
-            if ga.shape != md.shape:
-                dis.append(f"angle along {d}: {ga.size} values vs model {md.size}")
-                continue
-            gc = np.cos(np.radians(ga) if deg else ga)
-            want = np.degrees(np.arccos(md)) if deg else np.arccos(md)
-            if not (np.all(np.abs(gc - md) <= 1e-9) and np.all(np.abs(ga - want) <= 1e-6 * (180 if deg else math.pi))):
-                j = int(np.argmax(np.abs(gc - md)))
-                dis.append(f"angle along {d}: flat cell {j} impl {ga[j]!r} (cos {gc[j]!r}) vs model clipped dot {md[j]!r}")
-        s, gm = obs["max"]
-        r = rs[-1]
-        if (s == "ok") != ("ok" in r):
-            dis.append(f"max angle: impl {s} vs model {'ok' if 'ok' in r else r}")
-        elif s == "ok":
-            cmp_mesh("max angle mesh", gm.mesh, r["ok"]["mesh"], dis)
-            ga = gm.array.reshape(-1)
-            for j, row in enumerate(r["ok"]["dots"]):
-                ds = [float(F(x)) for x in row if x is not None]
-                want = max([0.0] + [math.degrees(math.acos(x)) if deg else math.acos(x) for x in ds])
-                cw = min([1.0] + ds)
-                if abs(ga[j] - want) > 1e-6 * (180 if deg else math.pi) or abs(math.cos(math.radians(ga[j]) if deg else ga[j]) - cw) > 1e-9:
-                    dis.append(f"max angle: flat cell {j} impl {ga[j]!r} vs model {want!r}")
-                    break
+                dis.append(f"max angle: impl {s} vs model {'ok' if 'ok' in r else r}")
+            elif s == "ok":
+                cmp_mesh("max angle mesh", gm.mesh, r["ok"]["mesh"], dis)
+                ga = np.asarray(gm.array, dtype=float).reshape(-1)
+                for j, row in enumerate(r["ok"]["dots"]):
+                    ds = [F(x) for x in row if x is not None]
+                    want = max([0.0] + [acos_q(x) for x in ds])
+                    cw = min([1.0] + [float(x) for x in ds])
+                    gj = math.radians(ga[j]) if deg else ga[j]
+                    if abs(gj - want) > float(angle_tol(want, eps)) or abs(math.cos(gj) - cw) > max(1e-9, E):
+                        dis.append(f"max angle [{units}]: flat cell {j} impl {gj!r} rad vs model {want!r} rad")
+                        break
     elif k == "bps" and case["model"]:
         dims = obs["field"]["mesh"]["region"]["dims"]
         for d, r in zip(dims, rs):
@@ -1044,6 +1324,10 @@ def nontrivial(case, obs):
 
 
 def known(case, text):
+    # D121 (open): all vectors at or below 1e-8 count as zero vectors (Field.orientation's absolute threshold), so the
+    # tools are not unchanged by rescaling to such lengths; by input class: length regime 'tiny'
+    if case.get("lens") == "tiny" and case.get("kind") in ("angle", "tcd"):
+        return "D121"
     return None
 
 
